@@ -260,9 +260,15 @@ Proof.
     cbn. eapply Forall2_forall2b; [|exact H]. apply ddl_equivb_complete.
 Qed.
 
+Lemma restoresb_complete tables up down : restores tables up down -> restoresb tables up down = true.
+Proof.
+  intros (d & B & -> & Hk & Hap & Hback & Hu). unfold restoresb. rewrite Hap, Hu.
+  rewrite (proj2 (decb_true _ _ _) Hk), (proj2 (decb_true _ _ _) Hback). reflexivity.
+Qed.
+
 Lemma check_C09_complete i o : C09_holds i o -> check_C09 i o = true.
 Proof.
-  destruct i as [x|up|tables up], o as [r rr df dfr sql|down|down upup ok]; cbn [check_C09 C09_holds]; try tauto.
+  destruct i as [x|up|tables up|tables t s ch], o as [r rr df dfr sql|down|down upup ok|up' down]; cbn [check_C09 C09_holds]; try tauto.
   - intros (H1 & H2 & H3 & H4). repeat (apply andb_true_iff; split).
     + destruct r as [x'|e]; auto. apply decb_true. apply H1; reflexivity.
     + destruct rr as [x''|e]; auto. destruct (H2 _ eq_refl) as [He Hs]. rewrite (ddl_equivb_top_complete _ _ He), Hs. reflexivity.
@@ -272,6 +278,6 @@ Proof.
   - intros [H1 H2]. apply andb_true_iff; split.
     + destruct down as [d|e]; auto. destruct (H1 _ eq_refl) as [Hk ->]. rewrite (proj2 (decb_true _ _ _) Hk). reflexivity.
     + destruct upup as [u|e]; auto. eapply Forall2_forall2b; [|exact (H2 _ eq_refl)]. apply ddl_equivb_top_complete.
-  - intros (d & B & -> & Hk & Hap & Hback). rewrite Hap.
-    apply andb_true_iff; split; apply decb_true; auto.
+  - apply restoresb_complete.
+  - apply restoresb_complete.
 Qed.
